@@ -159,6 +159,7 @@ class RefStore:
         self.farm = farm
         self.oneshot = oneshot
         self.cache = {}
+        self.specs = {}
         self.computed = 0
         self.errors = []
 
@@ -181,10 +182,12 @@ class RefStore:
         results = self.farm.run_all([s for _, s in missing])
         for (k, s), r in zip(missing, results):
             self.cache[k] = self._extract(s, r)
+            self.specs[k] = s
             self.computed += 1
 
     def get(self, key, spec):
         if key not in self.cache:
             self.cache[key] = self._extract(spec, self.oneshot.run(spec))
+            self.specs[key] = spec
             self.computed += 1
         return self.cache[key]
